@@ -150,7 +150,7 @@ def render_callable(kind, sig, stack, contracts):
     doc = '    """The doc of f."""\n'
     aw = "    await Tick()\n" if is_async else ""
     if kind in ("func", "afunc"):
-        return "".join(l + "\n" for l in lines) + "{} f({}) -> int:\n{}{}    return _out({})\n".format(adef, params, doc, aw, recv)
+        return "".join(l + "\n" for l in lines) + "{} f({}) -> 'int':\n{}{}    return _out({})\n".format(adef, params, doc, aw, recv)
     first = {"method": "self", "amethod": "self", "method_nested": "self", "amethod_nested": "self", "method_this": "this", "method_star": None, "classm": "cls", "static": None,
              "abstract_above": "self", "abstract_below": "self"}[kind]
     if kind == "method_star":
@@ -168,7 +168,7 @@ def render_callable(kind, sig, stack, contracts):
         pre = ["@abc.abstractmethod"]
     post = ["@abc.abstractmethod"] if kind == "abstract_below" else []
     body = "".join("    " + l + "\n" for l in pre + lines + post)
-    body += "    {} f({}) -> int:\n        \"\"\"The doc of f.\"\"\"\n{}        return _out({})\n".format(
+    body += "    {} f({}) -> 'int':\n        \"\"\"The doc of f.\"\"\"\n{}        return _out({})\n".format(
         adef, ps, "        await Tick()\n" if is_async else "", recv2)
     # invariants make every public method pass through the invariant wrapper as well
     base = "(abc.ABC)" if kind.startswith("abstract") else ""
@@ -214,6 +214,8 @@ def observe_callable(ns, kind, sig):
     obs["module"] = fn.__module__ == ns["__name__"]
     obs["annotations"] = dict(getattr(fn, "__annotations__", {}))
     obs["signature"] = str(inspect.signature(target))
+    # the return annotation is written as a string: resolving it on request must work through the checker as well
+    obs["signature_eval_str"] = str(inspect.signature(target, eval_str=True))
     obs["iscoroutinefunction"] = inspect.iscoroutinefunction(target)
     obs["static_type"] = type(f).__name__ if kind in ("static", "classm") else "function"
     # the original function is reachable through __wrapped__
